@@ -41,6 +41,41 @@ ASSUMPTIONS = ["networkx graph construction and traversal are mirrored by the mo
                "interpreted constant functions (VERIF_CONST policy `all`): the model never inspects values, so its answers are compared through terms.canon"]
 
 
+# ------------------------------------------------------------------------------------------ canonical values
+def canon(j):
+    """`terms.canon`, idempotent.  The map stream provides interior names as the arrays the FULL run produced: they enter the model
+    request as `terms.enc` of the implementation's values, i.e. already in the expanded image `arr [2] [proj t [0], proj t [1]]` of a
+    sequence-valued interpreted function (`terms.SEQ_SUFFIX`), and come back inside the model's answer.  `terms.canon` would expand the
+    free term `t` inside such a `proj` once more; here `proj t ix` of a sequence-valued call keeps its base plain (element `i` of the
+    sequence `t` IS `proj t [i]`; functions with an internal shape - the only native source of `proj` - are never sequence-valued).
+    `terms.enc`'d values are fixed points, model values get the same image as under `terms.canon`."""
+    if isinstance(j, dict):
+        is_c, c = terms._const_call(j)
+        if is_c:
+            return terms.enc(c)
+        if terms._seq_call(j):
+            base = _canon_plain(j)
+            return {"arr": [[2], [{"proj": [base, [0]]}, {"proj": [base, [1]]}]]}
+        if "f" in j:
+            return _canon_plain(j)
+        if "t" in j:
+            return {"arr": [[len(j["t"])], [canon(x) for x in j["t"]]]}
+        if "arr" in j:
+            return {"arr": [j["arr"][0], [canon(x) for x in j["arr"][1]]]}
+        if "pick" in j:
+            return {"pick": [canon(j["pick"][0]), j["pick"][1]]}
+        if "proj" in j:
+            b = j["proj"][0]
+            return {"proj": [_canon_plain(b) if terms._seq_call(b) else canon(b), j["proj"][1]]}
+    return j
+
+
+def _canon_plain(j):
+    if "f" in j:
+        return {"f": j["f"], "k": sorted(([k, canon(x)] for k, x in j["k"]), key=lambda kv: kv[0])}
+    return {"pick": [_canon_plain(j["pick"][0]), j["pick"][1]]}
+
+
 # ------------------------------------------------------------------------------------------ reference semantics (Python)
 def _bound(f):
     return {b[0] for b in f.get("bound", [])}
@@ -112,7 +147,7 @@ def ref_value(funcs, kw, o, log):
         t = app(f)
         return t if len(f["outputs"]) == 1 else {"pick": [t, q]}
 
-    return terms.canon(val(o))      # interpreted constant functions (terms.CONST_SUFFIX): the homomorphic image of the free term
+    return canon(val(o))      # interpreted constant functions (terms.CONST_SUFFIX): the homomorphic image of the free term
 
 
 # ------------------------------------------------------------------------------------------ generators
@@ -142,14 +177,16 @@ def subsets_of(rng, outs, limit=12):
     return res
 
 
-def cuts_for(rng, funcs, S):
-    """(kind, I) pairs for one S; kinds: roots, roots-nodefault, interior, mixed, mixed-nodefault, drop-root, and the malformed ones."""
+def cuts_for(rng, funcs, S, pinned=frozenset()):
+    """(kind, I) pairs for one S; kinds: roots, roots-nodefault, interior, mixed, mixed-nodefault, drop-root, and the malformed ones.
+    `pinned`: defaulted roots that are never left to their default (map stream: a MAPPED root whose default is an array of another length
+    and that the full run supplies - the partial run must be given the supplied array too, or it is not the same computation)."""
     out = []
     prod = {o: f for f in funcs for o in f["outputs"]}
     base = ref_needed(funcs, S, set())
     roots = base["roots"]
     out.append(("roots", list(roots)))
-    dfl = [r for r in roots if r in base["defaulted"]]
+    dfl = [r for r in roots if r in base["defaulted"] and r not in pinned]
     if dfl:
         drop = [r for r in dfl if rng.random() < 0.6] or dfl[:1]
         out.append(("roots-nodefault", [r for r in roots if r not in drop]))
@@ -158,10 +195,10 @@ def cuts_for(rng, funcs, S):
     if interior:
         C = rng.sample(interior, rng.randint(1, min(2, len(interior))))
         r2 = ref_needed(funcs, S, set(C))
-        out.append(("interior", list(C)))
+        out.append(("interior", list(C) + [r for r in r2["roots"] if r in pinned and r not in C]))
         still = [r for r in r2["roots"] if r not in C]
         out.append(("mixed", C + still))
-        d2 = [r for r in still if r in r2["defaulted"]]
+        d2 = [r for r in still if r in r2["defaulted"] and r not in pinned]
         if d2 and rng.random() < 0.7:
             out.append(("mixed-nodefault", C + [r for r in still if r not in d2]))
         req = [r for r in still if r not in r2["defaulted"]]
@@ -358,8 +395,8 @@ def model_map(r):
         return {"err": now["err"], "missing": sorted(now.get("missing", [])), "at": r.get("at")}
     if not now["spec_agrees"]:
         raise AssertionError("model run and specification disagree (extraction bug?)")
-    return {"kept": sorted(now["kept"]), "outputs": {k: terms.canon(v) for k, v in now["outputs"]},
-            "calls": sorted(([n, [[k, terms.canon(v)] for k, v in sorted(kw, key=lambda kv: kv[0])]] for n, kw in now["calls"]), key=repr)}
+    return {"kept": sorted(now["kept"]), "outputs": {k: canon(v) for k, v in now["outputs"]},
+            "calls": sorted(([n, [[k, canon(v)] for k, v in sorted(kw, key=lambda kv: kv[0])]] for n, kw in now["calls"]), key=repr)}
 
 
 def kwval(k):
@@ -597,12 +634,12 @@ def judge_pipe(ctx, case, ref, impl, resps):
             ctx.violation(case, "run(o, kwargs=I): value is not the composition with the provided names substituted", impl=ob, model={"value": want})
         elif ob["calls"] != ref["needed"]:
             ctx.violation(case, f"run(o, kwargs=I) invoked {ob['calls']} instead of exactly the needed {ref['needed']}", impl=ob, model=r["full"])
-        elif "err" in r["full"] or terms.canon(r["full"]["value"]) != ob["value"] or sorted(r["full"]["calls"]) != ob["calls"] \
-                or "err" in r["sub"] or terms.canon(r["sub"]["value"]) != ob["value"] or sorted(r["sub"]["calls"]) != ob["calls"] \
-                or terms.canon(r["spec"]) != ob["value"]:
+        elif "err" in r["full"] or canon(r["full"]["value"]) != ob["value"] or sorted(r["full"]["calls"]) != ob["calls"] \
+                or "err" in r["sub"] or canon(r["sub"]["value"]) != ob["value"] or sorted(r["sub"]["calls"]) != ob["calls"] \
+                or canon(r["spec"]) != ob["value"]:
             ctx.violation(case, "model of run / call of the partial pipeline differs", found_input=False, item="correspondence:run", impl=ob, model=r)
         so = (impl.get("variants") or {}).get("subobj", {}).get("run")
-        if so is not None and "err" not in r["sub"] and (so.get("value") != terms.canon(r["sub"]["value"]) or so.get("calls") != sorted(r["sub"]["calls"])):
+        if so is not None and "err" not in r["sub"] and (so.get("value") != canon(r["sub"]["value"]) or so.get("calls") != sorted(r["sub"]["calls"])):
             ctx.violation(case, "model of calling the partial pipeline (callSub) differs from subpipeline(I, S).run(o, kwargs=I)", found_input=False,
                           item="correspondence:run", impl=so, model=r["sub"])
 
@@ -629,9 +666,17 @@ def map_io(desc, I, full_out, full_enc, full_inputs):
     return inputs, minputs
 
 
+def mapped_defaults(desc):
+    """roots that have an ARRAY default (mapgen, `_MAPPED_DEFAULT_ON`: a mapped root with a default of another length) and are supplied"""
+    arr = {d[0] for f in desc["funcs"] for d in f["defaults"] if isinstance(d[1], dict) and "arr" in d[1]}
+    return frozenset(k for k, _ in desc["inputs"] if k in arr)
+
+
 def map_full(desc):
-    """The full run of a map case (defaulted roots left to their defaults)."""
-    dn = {d[0] for f in desc["funcs"] for d in f["defaults"]}
+    """The full run of a map case (defaulted roots left to their defaults, except a mapped root with an array default: it stays supplied -
+    the supplied array, not the default, must decide shapes and values in the full and in every partial run)."""
+    keep = mapped_defaults(desc)
+    dn = {d[0] for f in desc["funcs"] for d in f["defaults"]} - keep
     desc["inputs"] = [kv for kv in desc["inputs"] if kv[0] not in dn]
     p, log = mapgen.build(desc)
     internal = mapgen.internal_shapes_arg(desc)
@@ -665,8 +710,11 @@ def map_requests(ctx, desc, rng, items):
         ctx.skip(f"full map run fails:{exc_enum(e)}")         # C01's business
         return
     outs = [o for f in funcs for o in f["outputs"]]
+    pinned = mapped_defaults(desc)
+    if pinned:
+        ctx.count("map:supplied-mapped-default")
     for S in subsets_of(rng, outs, limit=8):
-        for kind, I in cuts_for(rng, funcs, S):
+        for kind, I in cuts_for(rng, funcs, S, pinned):
             if kind in ("bad:unknown-input",):
                 continue
             I = list(dict.fromkeys(I))
@@ -770,6 +818,31 @@ CORPUS = [
     {"funcs": [_f("f0", [], ["o0"]), _f("f1", ["o0", "r0"], ["o1"])]},
     # tuple output, one part consumed; bound over an upstream output
     {"funcs": [_f("f0", ["r0"], ["o0a", "o0b"]), _f("f1", ["o0b", "r1"], ["o1"]), _f("f2", ["o1", "o0a"], ["o2"], bound=[["o0a", {"s": "bound:o0a:f2"}]])]},
+    # sequence-valued results (terms.SEQ_SUFFIX): a 1-D array per tuple part, a tuple, a list - passed on, requested, provided
+    {"funcs": [_f("f0_nd", ["r0"], ["o0a", "o0b"]), _f("f1_pair", ["o0b", "r1"], ["o1"]), _f("f2_lst", ["o1", "o0a"], ["o2"]), _f("f3", ["o2"], ["o3"])]},
+]
+
+
+def _mf(name, params, outputs, mapspec=None, defaults=()):
+    return {"name": name, "params": [[p, p] for p in params], "outputs": list(outputs), "mapspec": mapspec, "mapspec_str": mapgen.spec_str(mapspec) if mapspec else None,
+            "autogen": False, "ret": None, "internal": None, "defaults": [list(d) for d in defaults], "bound": []}
+
+
+def _el(tag, name, n):
+    return {"arr": [[n], [{"f": tag, "k": [["n", {"s": name}], ["at", {"arr": [[1], [q]]}]]} for q in range(n)]]}
+
+
+def _ms(ins, outs):
+    return {"inputs": [[n, ["i"]] for n in ins], "outputs": [[n, ["i"]] for n in outs]}
+
+
+# map stream: sequence-valued ELEMENTS (every element of y0a/y0b/y1 is a list / a tuple, the reduction returns an array) and a mapped root
+# that has a default of another length (3) and is supplied as well (2): the provided intermediates are fed back into the model as `terms.enc`'d arrays
+MAP_CORPUS = [
+    {"funcs": [_mf("f0_lst", ["x0"], ["y0a", "y0b"], _ms(["x0"], ["y0a", "y0b"]), defaults=[["x0", _el("dflt", "x0", 3)]]),
+               _mf("f1_pair", ["y0b", "c1"], ["y1"], _ms(["y0b"], ["y1"]), defaults=[["c1", {"s": "dflt:c1"}]]),
+               _mf("f2_nd", ["y1", "y0a"], ["y2"]), _mf("f3", ["y2"], ["y3"])],
+     "inputs": [["c1", {"s": "in:c1"}], ["x0", _el("in", "x0", 2)]], "input_kinds": {"x0": "list"}, "internal": [], "sizes": {"i": 2}},
 ]
 
 
@@ -790,6 +863,8 @@ def _run(ctx):
         pipe_requests(ctx, copy.deepcopy(d), rng, items)
     for _ in range(ctx.n(115, 1500)):
         pipe_requests(ctx, gen_pipe(rng), rng, items)
+    for d in MAP_CORPUS:
+        map_requests(ctx, copy.deepcopy(d), rng, items)
     for _ in range(ctx.n(90, 1200)):
         map_requests(ctx, mapgen.gen_case(rng, p_default=0.3), rng, items)
     flat = [r for it in items for r in it[3]]
